@@ -102,6 +102,13 @@ def _with_margin(bez, line, ivs):
     dx, dy = bx - ax, by - ay
     n2 = dx * dx + dy * dy
     bp = bez.bpoints()
+    # not in general position: every control point within 1e-6 of the Bezier's size of the line's carrier - the curve lies along
+    # the line (decimal lattice points such as 0.02-0.03j are collinear only up to binary rounding, which leaves an exact but
+    # meaningless ~1e-18 polynomial with "one root"); a crossing of two coincident curves is not a transversal crossing
+    dist_ = [abs((Fr(p.real) - ax) * dy - (Fr(p.imag) - ay) * dx) for p in bp]
+    size2_ = max((Fr(p.real) - Fr(q.real)) ** 2 + (Fr(p.imag) - Fr(q.imag)) ** 2 for p in bp for q in bp)
+    if max(dist_) ** 2 <= Fr(1, 10 ** 12) * size2_ * n2:
+        return None
     g = ic._ptrim(ic.bern_to_mono([(Fr(p.real) - ax) * dy - (Fr(p.imag) - ay) * dx for p in bp]))
     u = ic.bern_to_mono([((Fr(p.real) - ax) * dx + (Fr(p.imag) - ay) * dy) / n2 for p in bp])
     # all real roots of g in a neighbourhood of [0,1]
